@@ -152,6 +152,7 @@ type RefRun struct {
 	OutSt    map[string]Status
 	OutData  map[string]any
 	Unique   bool
+	MayHang  bool // a step whose start the reference cannot decide is scripted to hang
 	Notes    []string
 	EvalErrs []string
 	// result
@@ -603,6 +604,9 @@ func (r *RefRun) decide(s *Step) bool {
 		return true
 	case Never, Unknown:
 		oc.What = "stuck-start"
+		if sn.st == Unknown && (sc.Run == env.RunHangCancel || sc.Run == env.RunHangIgnore || len(sc.ByValue) > 0) {
+			r.MayHang = true
+		}
 		r.setAll(s.ID, pluginOutputs, map[string]Status{"disabled.output": I}, sn.st)
 		r.set(s.ID, "enabling", "resolved", Produced, map[string]any{"enabled": true})
 		return true
